@@ -56,6 +56,40 @@ type crashImage struct {
 
 func newMemFS() *memFS { return &memFS{files: map[string]*inode{}, failAt: -1} }
 
+// stall support: the next Write blocks (a slow disk) until the harness lets go.
+type fsStall struct {
+	mu      sync.Mutex
+	armed   bool
+	reached chan struct{}
+	release chan struct{}
+}
+
+var theStall fsStall
+
+func armStall() (reached <-chan struct{}, release func()) {
+	theStall.mu.Lock()
+	defer theStall.mu.Unlock()
+	theStall.armed = true
+	theStall.reached = make(chan struct{})
+	theStall.release = make(chan struct{})
+	rel := theStall.release
+	var once sync.Once
+	return theStall.reached, func() { once.Do(func() { close(rel) }) }
+}
+
+func maybeStall() {
+	theStall.mu.Lock()
+	if !theStall.armed {
+		theStall.mu.Unlock()
+		return
+	}
+	theStall.armed = false
+	reached, release := theStall.reached, theStall.release
+	theStall.mu.Unlock()
+	close(reached)
+	<-release
+}
+
 func (fs *memFS) snapshotFiles() map[string]string {
 	m := make(map[string]string, len(fs.files))
 	for p, ino := range fs.files {
@@ -264,6 +298,7 @@ func (f *memFile) Read(p []byte) (int, error) {
 }
 
 func (f *memFile) Write(p []byte) (int, error) {
+	maybeStall()
 	f.fs.mu.Lock()
 	defer f.fs.mu.Unlock()
 	if f.closed {
@@ -397,9 +432,15 @@ func (f *memFile) Stat() (os.FileInfo, error) {
 
 // fakeClock is the harness clock behind snapshot.go's time calls.
 type fakeClock struct {
-	mu   sync.Mutex
-	now  time.Time
-	tick chan time.Time // unbuffered: a completed send proves the stream goroutine was in its select
+	mu     sync.Mutex
+	now    time.Time
+	tick   chan time.Time // unbuffered: a completed send proves the stream goroutine was in its select
+	timers []fakeTimer    // pending After() timers: they fire when the owned clock is advanced past them
+}
+
+type fakeTimer struct {
+	at time.Time
+	ch chan time.Time
 }
 
 func newFakeClock() *fakeClock {
@@ -415,12 +456,31 @@ func (c *fakeClock) Since(t time.Time) time.Duration { return c.Now().Sub(t) }
 func (c *fakeClock) Advance(d time.Duration) {
 	c.mu.Lock()
 	c.now = c.now.Add(d)
+	var keep []fakeTimer
+	for _, t := range c.timers {
+		if !t.at.After(c.now) {
+			t.ch <- c.now // buffered 1
+		} else {
+			keep = append(keep, t)
+		}
+	}
+	c.timers = keep
 	c.mu.Unlock()
 }
 func (c *fakeClock) NewTicker(time.Duration) *serf.VerifTicker {
 	return serf.VerifNewTicker(c.tick, func() {})
 }
-func (c *fakeClock) After(time.Duration) <-chan time.Time { return make(chan time.Time) }
+func (c *fakeClock) After(d time.Duration) <-chan time.Time {
+	c.mu.Lock()
+	defer c.mu.Unlock()
+	ch := make(chan time.Time, 1)
+	if d <= 0 {
+		ch <- c.now
+		return ch
+	}
+	c.timers = append(c.timers, fakeTimer{at: c.now.Add(d), ch: ch})
+	return ch
+}
 
 func (r opRec) String() string { return fmt.Sprintf("#%d %s %s len=%d err=%v", r.N, r.Kind, r.Path, r.Len, r.Err) }
 
